@@ -91,7 +91,7 @@ def graph_histogram(edges, family):
     return dict(ops=ops, commits=commits, rejects=rejects)
 
 
-def export_paths(wd, cfg, max_paths=None, max_len=14):
+def export_paths(wd, cfg, max_paths=None, max_len=14, prefer=None):
     """Runs the edge-export cfg, builds an edge-covering path set and completes every path until no
     session is in flight (so that every reply is read and every lock released)."""
     r = vlib.run_tlc(wd, "HostMC", cfg, workers=1, timeout=1500)
@@ -130,6 +130,9 @@ def export_paths(wd, cfg, max_paths=None, max_len=14):
     total = len(done)
     if max_paths and len(done) > max_paths:
         rng.shuffle(done)
+        if prefer:      # paths that must always be replayed come first, the sample fills the rest
+            done.sort(key=lambda p: 0 if prefer(p) else 1)
+            max_paths = max(max_paths, sum(1 for p in done if prefer(p)))
         done = done[:max_paths]
     log("  R: %s: graph %d states / %d edges; %d paths cover %d edges%s" %
         (cfg, nst, ned, total, covered, "" if len(done) == total else " (seeded sample of %d paths replayed)" % len(done)))
